@@ -1,6 +1,7 @@
 package rtgen
 
 import (
+	"bytes"
 	"encoding/binary"
 	"encoding/hex"
 	"fmt"
@@ -96,9 +97,38 @@ func recTerm(r *Rec, l4 L4) string {
 	return r.Gallina(p, ok)
 }
 
+// sameButPath reports whether two records agree in everything except the path
+// meta header (pointers, reserved bits) and the info fields.
+func sameButPath(a, b *Rec) bool {
+	if a.DstIA != b.DstIA || a.SrcIA != b.SrcIA || a.DstType != b.DstType || a.SrcType != b.SrcType ||
+		!bytes.Equal(a.DstRaw, b.DstRaw) || !bytes.Equal(a.SrcRaw, b.SrcRaw) || a.PayLen != b.PayLen ||
+		a.PayActual != b.PayActual || a.Seg != b.Seg || len(a.Hops) != len(b.Hops) {
+		return false
+	}
+	for i := range a.Hops {
+		if a.Hops[i] != b.Hops[i] {
+			return false
+		}
+	}
+	return true
+}
+
+// outTerm prints the output record, as `Router.patch p ...` (p = the input
+// record bound by the case term) when only the mutable path state differs.
+func (o *Obs) outTerm(l4 L4) string {
+	if o.Out == nil {
+		return ""
+	}
+	if o.In != nil && sameButPath(o.In, o.Out) {
+		return vgen.App("Router.patch", "p", vgen.N(uint64(o.Out.CurrINF)), vgen.N(uint64(o.Out.CurrHF)),
+			vgen.N(uint64(o.Out.MetaRsv)), vgen.ListOf(o.Out.Infos, Info.Gallina))
+	}
+	return recTerm(o.Out, l4)
+}
+
 // ResultTerm prints the observation as a Router.result.
 func (o *Obs) ResultTerm(l4 L4) string {
-	out := recTerm(o.Out, l4)
+	out := o.outTerm(l4)
 	switch o.Res.Disp {
 	case router.VerifDiscard:
 		return "Router.Discard"
@@ -183,8 +213,9 @@ func CaseTerm(cfgName string, c *Config, ing Ingress, l4 L4, o *Obs) string {
 	for i, x := range o.Changed {
 		ch[i] = uint64(x)
 	}
-	return vgen.App("Router.CPkt", cfgName, vgen.N(uint64(o.NowNs)), ing.Gallina(), MacTable(c, o.In),
-		recTerm(o.In, l4), o.ResultTerm(l4), vgen.NList(ch), vgen.N(uint64(o.InLen)), vgen.N(uint64(o.OutLen)))
+	return "(let p := " + recTerm(o.In, l4) + " in " +
+		vgen.App("Router.CPkt", cfgName, vgen.N(uint64(o.NowNs)), ing.Gallina(), MacTable(c, o.In),
+			"p", o.ResultTerm(l4), vgen.NList(ch), vgen.N(uint64(o.InLen)), vgen.N(uint64(o.OutLen))) + ")"
 }
 
 // Key is the canonical input of a case (for distinctness).
